@@ -1229,6 +1229,11 @@ class Verifier:
                         self.oblige(st, z3.Not(opt_is_none(v.t, v.z)), 'post',
                                     'a component of the result may be None where the contract requires %s' % ti, node)
                         v = strip_opt(v)
+                    if isinstance(v, SV) and isinstance(ti, ObjT) and v.t in (STR, INT, BOOL, PATH):
+                        # e.g. a text where the contract requires an object that compares by identity
+                        self.oblige(st, z3.BoolVal(False), 'post',
+                                    'a component of the result is a %s where the contract requires %s' % (v.t, ti), node)
+                        v = fresh(ti, 'mistyped')
                     new.append(v)
                 return MTup(new)
         return val
